@@ -174,8 +174,9 @@ pub mod rt {
         #[verifier::external_body]
         pub unsafe fn advance(&mut self, n: usize)
             requires
-                n <= old(self).room(),
-                cells_init(old(self).cells(), n as int),
+                // tagged: a call site is checked against the *actual* argument (unit bridge, hyper-side `poll_read`)
+                n <= old(self).room(), //# tio.read.advance_fits [C18]
+                cells_init(old(self).cells(), n as int), //# tio.read.advance_init [C18]
             ensures
                 final(self).done() == old(self).done() + cells_val(old(self).cells(), n as int),
                 final(self).room() == old(self).room() - n,
